@@ -327,3 +327,21 @@ def inline_locals(fnode, expr):
             return node
     e = T().visit(e)
     return e
+
+
+def only_guards(cfg, node, allowed):
+    """Every fact that dominates `node` is one of `allowed`
+    [(pattern, truth)]: the node is reached WHENEVER those facts hold - no
+    further condition narrows it.  (A dominating atom `x` true is also
+    implied by a narrower test `x and y`; asking for the atom alone cannot
+    tell the two apart, asking that nothing else dominates can.)"""
+    from mstatic.pattern import match, P as _P
+    pats = []
+    for pat, truth in allowed:
+        want = []
+        _atoms(_P(pat) if isinstance(pat, str) else pat, truth, want)
+        pats += want
+    for a, t in guard_atoms(cfg, node):
+        if not any(t == wt and match(wp, a) is not None for wp, wt in pats):
+            return False
+    return True
